@@ -522,7 +522,7 @@ fn replay(args: &Args, path: &str) {
             }
         }
         "pool_history" => {
-            use crate::c04_pool::{run_history, History, Op};
+            use crate::c04_pool::{run_history, run_history_with, History, Op};
             let uidx = |v: &serde_json::Value| -> usize { ["alice", "bob", "carol", "donor"].iter().position(|n| Some(*n) == v.as_str()).unwrap_or(0) };
             let ops: Vec<Op> = fi["ops"].as_array().unwrap().iter().map(|o| match o["op"].as_str().unwrap() {
                 "provide" => Op::Provide { u: uidx(&o["user"]), d: [us(&o["amounts"][0]), us(&o["amounts"][1]), us(&o["amounts"][2])] },
@@ -538,7 +538,8 @@ fn replay(args: &Args, path: &str) {
             let f = &fi["fees_protocol_swap_burn"];
             let k = &fi["asset_kinds_cw20"];
             let h = History { amp: u6(&fi["amp"]), fees: (us(&f[0]), us(&f[1]), us(&f[2])), kinds: [k[0].as_bool().unwrap(), k[1].as_bool().unwrap(), k[2].as_bool().unwrap()], fixed: Some(ops), len: 0 };
-            run_history(&mut out, &mut rng, &h);
+            let dn: Vec<String> = fi["native_denoms"].as_array().map(|a| a.iter().filter_map(|x| x.as_str().map(|s| s.to_string())).collect()).unwrap_or_default();
+            if dn.len() == 3 { run_history_with(&mut out, &mut rng, &h, [dn[0].as_str(), dn[1].as_str(), dn[2].as_str()]); } else { run_history(&mut out, &mut rng, &h); }
         }
         other => { println!("unknown replay kind {other:?}"); std::process::exit(2); }
     }
